@@ -58,6 +58,9 @@ type e2World struct {
 	held      int
 	// rank, when set, replaces the drawn schedule by a fixed priority policy (directed reproducers of known findings)
 	rank func(a *vs.Actor) int
+	// hold, when set, keeps an actor from being chosen while any other actor is enabled
+	hold     func(a *vs.Actor) bool
+	heldBack int
 	// atClose runs at teardown (listeners, temp files)
 	atClose []func()
 }
@@ -248,6 +251,30 @@ func (w *e2World) choose(en []*vs.Actor, cur *vs.Actor) int {
 		w.lastRun[en[oi].ID] = step
 		w.forced++
 		return oi
+	}
+	if len(en) == 1 {
+		return 0
+	}
+	if w.hold != nil {
+		// schedule bias: some actors are held back while anybody else can run (still a legal schedule)
+		var keep []int
+		for k, a := range en {
+			if !w.hold(a) {
+				keep = append(keep, k)
+			}
+		}
+		if len(keep) > 0 && len(keep) < len(en) {
+			sub := make([]*vs.Actor, len(keep))
+			for i, k := range keep {
+				sub[i] = en[k]
+			}
+			saved := w.hold
+			w.hold = nil
+			i := w.choose(sub, cur)
+			w.hold = saved
+			w.heldBack++
+			return keep[i]
+		}
 	}
 	if w.noPreempt != nil && cur != nil && en[0] == cur && w.noPreempt(cur) {
 		w.held++
